@@ -1327,7 +1327,9 @@ impl Machine {
                 }
                 Instruction::JmpIfNeg(cond, offset) => {
                     let cond_v = self.get_stack(cond as i64);
-                    if Self::get_as::<f64>(cond_v) <= 0.0 {
+                    // Only a value greater than zero is true; NaN takes the else branch,
+                    // as it does on the WASM and Rust backends.
+                    if !(Self::get_as::<f64>(cond_v) > 0.0) {
                         increment = offset;
                     }
                 }
